@@ -82,6 +82,42 @@ def impl_checks(ctx, cases):
                 if r4.get("error") != "ValueError":
                     bad("a schedule whose length differs from the time grid is not rejected with ValueError", c4,
                         dict(schedule_len=n2, time_len=len(t), got=r4.get("error", "no error")))
+        # a rejected schedule must leave the object as it was: a used object keeps answering for its last successful run, a fresh
+        # one still has nothing to answer with
+        if c["kind"] == "single" and "sched" not in c and len(t) >= 3 and c.get("two_phase_sw") is None:
+            used = base["res"]
+            rf_before = np.array(used.recovery_factor(), float)
+            t_other = np.array(t, float) * 7.0 + 3.0
+            with warnings.catch_warnings():
+                warnings.simplefilter("ignore")
+                try:
+                    used.simulate(t_other, np.full(len(t) - 1, c["pf"]))
+                    bad("a schedule whose length differs from the time grid is not rejected with ValueError", c, dict(schedule_len=len(t) - 1, time_len=len(t), object="already simulated"))
+                except ValueError:
+                    pass
+                ev += 1
+                try:
+                    rf_after = np.array(used.recovery_factor(), float)
+                    it_after = np.asarray(used.recovery_factor_interpolator()(t), float)
+                    if not (np.array_equal(rf_after, rf_before) and np.allclose(it_after, rf_before, rtol=1e-12, atol=1e-15) and np.array_equal(np.asarray(used.time, float), t)):
+                        bad("after a REJECTED simulate call (schedule of the wrong length) the object no longer answers for its last successful run: recovery / interpolator / stored times changed",
+                            c, dict(final_recovery_before=float(rf_before[-1]), final_recovery_after=float(rf_after[-1]), stored_times_changed=not np.array_equal(np.asarray(used.time, float), t)))
+                except Exception as e:  # noqa: BLE001
+                    bad("after a REJECTED simulate call the object no longer answers for its last successful run", c, repr(e)[:160])
+                fresh_r = SinglePhaseReservoir(c["nx"], c["pf"], c["pi"], base["fp"])
+                try:
+                    fresh_r.simulate(t_other, np.full(len(t) + 1, c["pf"]))
+                except ValueError:
+                    pass
+                for call in ("recovery_factor", "recovery_factor_interpolator"):
+                    ev += 1
+                    try:
+                        getattr(fresh_r, call)()
+                        bad(f"{call}() on an object whose only simulate call was rejected does not raise", c, {})
+                    except RuntimeError:
+                        pass
+                    except Exception as e:  # noqa: BLE001
+                        bad(f"{call}() on an object whose only simulate call was rejected raises {type(e).__name__} instead of RuntimeError", c, {})
         # recovery before any simulation raises; interpolator fill
         with warnings.catch_warnings():
             warnings.simplefilter("ignore")
